@@ -9,6 +9,20 @@ def resAttrJ : Res String → Json
   | .attributeError => "AttributeError"
   | .diverged => "RecursionError"
 
+/-- reading a name that the class of some links defines (a class attribute of a user subclass of the link class): ordinary
+lookup answers on the first object along the chain whose class has it; plain links forward, a plain node answers from its
+own dictionary. Outside the attribute-store model (which knows instance data only): a driver-level extension, used for the
+name `kind` when a case creates links of the user class -/
+def getClassAware (h : Heap String) (isUser : Nat → Bool) (classVal : String) : Nat → Nat → String → Res String
+  | 0, _, _ => .diverged
+  | fuel+1, i, name =>
+    if isUser i then .value classVal else
+    match (h i).target with
+    | none => match dictGet (h i).dict name with
+      | some v => .value v
+      | none => .attributeError
+    | some t => getClassAware h isUser classVal fuel t name
+
 /-- family `symlink`: objects (plain or link), a sequence of attribute writes / constructor calls /
 reads; every read is answered by the mirror (`getattr`) and by the spec (`readS` on the resolved target).
 ops: `{"op":"new"}`, `{"op":"link","t":i,"kw":[[k,v]…]}`, `{"op":"set","i":i,"k":k,"v":v}`, `{"op":"get","i":i,"k":k}` -/
@@ -20,6 +34,7 @@ def runSymlink (j : Json) : R (Json × Json) := do
   let mut f : Forest := Forest.empty
   let mut ms : Array Json := #[]
   let mut ss : Array Json := #[]
+  let mut users : List Nat := []
   -- a link chain is never longer than the number of objects, which is at most the number of operations
   let fuel := max 64 (ops.size + 8)
   for oj in ops do
@@ -42,6 +57,7 @@ def runSymlink (j : Json) : R (Json × Json) := do
       match ctorLink legacy h fuel n t kw with
       | some h' => h := h'
       | none => throw "ctorLink diverged"
+      if (← (getStr oj "cls" <|> pure "")) == "user" then users := n :: users
       n := n + 1
       f := f.newNode
     | "set" =>
@@ -57,8 +73,14 @@ def runSymlink (j : Json) : R (Json × Json) := do
     | "get" =>
       let i ← getNat oj "i"
       let k ← getStr oj "k"
-      ms := ms.push (resAttrJ (getattr h fuel i k))
-      ss := ss.push (resAttrJ (Spec.readS h fuel i k))
+      if k == "kind" && !users.isEmpty then
+        let us := users
+        let r := getClassAware h (fun x => us.contains x) "shortcut" fuel i k
+        ms := ms.push (resAttrJ r)
+        ss := ss.push (resAttrJ r)
+      else
+        ms := ms.push (resAttrJ (getattr h fuel i k))
+        ss := ss.push (resAttrJ (Spec.readS h fuel i k))
     | "dump" =>
       -- own dictionaries of all objects (links must hold nothing but local names)
       let d := (List.range n).map (fun i => Json.arr ((h i).dict.map (fun e => Json.arr #[toJson e.1, toJson e.2])).toArray)
